@@ -161,30 +161,28 @@ example : LWF 0 [.m 1 97 1 60, .w 1 100 90 [(0, 2), (2, 3)], .b2 101 104 false 3
 theorem unsafe_layout_counterexample :
     (readAll .fixed false 8 20 (responseTokens [.m 1 5 1 60, .b2 10 11 false 12 [(0, 2, 12)]] (-1))).2.2 = .desync := by decide
 
-/-- `single_fetch` about **bytes**, sublanguage "message set of uncompressed v2 record batches, cut at any byte":
-the first `n` bytes of what the reference encoder (`Spec/RecordBatch.lean`) produces for the batches `bs` are read
-by the byte-level tokenizer (`Spec/ByteLayout.tokenize`, proved equal to the truncated token stream of the layout:
-`tokenize_v2`) into a stream on which the decoder delivers exactly the stored records at or above `o` that lie
-completely within the first `n` bytes.  `crc` is any checksum function below 2³², `dg2` any digest of the observable
-record fields. -/
-theorem single_fetch_bytes (crc : Bytes → Nat) (hcrc : ∀ b, crc b < RW.M32) (dg2 : Int → Spec.RB.RecV2 → Nat)
-    (bs : List BBatch) (hframes : ∀ b ∈ bs, b.frame.WF) (nb : Int) (hnb : 0 ≤ nb) (hwf : LWF nb (layoutOf dg2 bs))
-    (o hwm : Int) (ho : 0 ≤ o) (hne : hwm ≠ o) (expired : Bool) (n : Nat) :
-    let toks := tokenize dg2 (n + 1) .hdr ((encSetV2 crc bs).take n)
-    (readAll .fixed expired o hwm toks).1 = (contained (layoutOf dg2 bs) n).filter (fun r => o ≤ r.1) ∧
+/-- `single_fetch` about **bytes**, for everything the reference encoder (`Spec/RecordBatch.lean`, the published record
+batch / message set formats) can put into a message set: uncompressed and compressed v2 batches, v0/v1 messages and
+compressed wrappers (`BItem`), in any order, cut at any byte `n`.  The byte-level tokenizer (`Spec/ByteLayout.tokenize`:
+fixed headers when all their bytes are there, a record when its length prefix and body are there, a compressed
+payload / a message body when it is complete, else `cut`; checksums ignored like the Go decoder does) is proved to
+produce exactly the truncated token stream of the layout (`tokenize_items`); on it the decoder delivers exactly the
+stored records at or above `o` that lie completely within the first `n` bytes.
+Parameters: the compression codec as `enc`/`dec` with `dec ∘ enc = id` and non-empty output, checksum functions below
+2³², digests `dg2`/`dg1` of the observable fields. -/
+theorem single_fetch_bytes (c : TokCfg) (enc : Int → Bytes → Bytes) (hdec : ∀ k b, c.dec k (enc k b) = some b)
+    (hpos : ∀ k b, 0 < (enc k b).length) (h1 : ∀ b, c.crcs.ieee b < RW.M32) (h2 : ∀ b, c.crcs.castagnoli b < RW.M32)
+    (its : List BItem) (hitems : ∀ it ∈ its, it.WF c enc) (nb : Int) (hnb : 0 ≤ nb) (hwf : LWF nb (layoutOfItems c enc its))
+    (o hwm : Int) (ho : 0 ≤ o) (hsafe : Safe o (layoutOfItems c enc its)) (hne : hwm ≠ o) (expired : Bool) (n : Nat) :
+    let toks := tokenize c (n + 1) .hdr ((encItems c enc its).take n)
+    (readAll .fixed expired o hwm toks).1 = (contained (layoutOfItems c enc its) n).filter (fun r => o ≤ r.1) ∧
     (readAll .fixed expired o hwm toks).2.2 ≠ .desync ∧
-    (∀ r ∈ allRecords (layoutOf dg2 bs), o ≤ r.1 → r.1 < (readAll .fixed expired o hwm toks).2.1 →
+    (∀ r ∈ allRecords (layoutOfItems c enc its), o ≤ r.1 → r.1 < (readAll .fixed expired o hwm toks).2.1 →
       r ∈ (readAll .fixed expired o hwm toks).1) := by
-  have hsafe : Safe o (layoutOf dg2 bs) := by
-    apply safe_of_v2
-    intro it hit
-    simp only [layoutOf, List.mem_map] at hit
-    obtain ⟨b, _, rfl⟩ := hit
-    rfl
-  have h := single_fetch (layoutOf dg2 bs) nb hnb hwf o hwm ho hsafe hne (n : Int) expired
+  have h := single_fetch (layoutOfItems c enc its) nb hnb hwf o hwm ho hsafe hne (n : Int) expired
   have hc : ¬ ((n : Int) < 0) := by omega
   simp only [responseTokens, containedRecords, hc, if_false, Int.toNat_natCast] at h
-  simp only [tokenize_v2 crc hcrc dg2 bs hframes n (n + 1) (by omega)]
+  simp only [tokenize_items c enc hdec hpos h1 h2 its hitems n (n + 1) (by omega)]
   exact ⟨h.1, h.2.1, h.2.2.1⟩
 
 /-- observation (a), not a finding: *outside* the fetch contract — a response cut inside its first v2 batch — the
